@@ -28,13 +28,13 @@ _PURE_METHODS = frozenset(('keys', 'values', 'items'))      # on a benign receiv
 _BENIGN_OPS = (ast.Mod, ast.Add, ast.Sub, ast.Mult, ast.Div, ast.FloorDiv)
 
 
-def _benign_expr(n, impure=None):
+def _benign_expr(n, impure=None, pure=_PURE_BUILTINS):
     """True if evaluating `n` can do nothing but read names / attributes / items, format, compare and do arithmetic
     on them.  Calls outside the white list make it impure; with `impure` (a list) they are collected instead (the
     caller keeps them pinned) - anything else that is not in the grammar (walrus, lambda, await, yield, starred,
     comprehensions with conditions on calls ...) always gives False."""
     def rec(x):
-        return _benign_expr(x, impure)
+        return _benign_expr(x, impure, pure)
     if n is None or isinstance(n, (ast.Constant, ast.Name)):
         return True
     if isinstance(n, ast.Attribute):
@@ -62,21 +62,21 @@ def _benign_expr(n, impure=None):
     if isinstance(n, ast.IfExp):
         return rec(n.test) and rec(n.body) and rec(n.orelse)
     if isinstance(n, (ast.GeneratorExp, ast.ListComp, ast.SetComp)):
-        return rec(n.elt) and all(_benign_comp(g, impure) for g in n.generators)
+        return rec(n.elt) and all(_benign_comp(g, impure, pure) for g in n.generators)
     if isinstance(n, ast.Call):
         ok = False
         if not any(isinstance(a, ast.Starred) for a in n.args) and all(k.arg is not None for k in n.keywords):
-            if isinstance(n.func, ast.Name) and n.func.id in _PURE_BUILTINS and not n.keywords:
+            if isinstance(n.func, ast.Name) and n.func.id in pure and not n.keywords:
                 ok = True
             elif isinstance(n.func, ast.Attribute):
-                if n.func.attr in _PURE_METHODS and not n.args and not n.keywords and _benign_expr(n.func.value):
+                if n.func.attr in _PURE_METHODS and not n.args and not n.keywords and _benign_expr(n.func.value, None, pure):
                     ok = True
                 elif n.func.attr == 'join' and isinstance(n.func.value, ast.Constant) \
                         and isinstance(n.func.value.value, str) and len(n.args) == 1 and not n.keywords:
                     ok = True
                 elif n.func.attr == 'format' and _is_message(n.func.value):
                     ok = rec(n.func.value)
-        if ok and all(_benign_expr(a) for a in n.args) and all(_benign_expr(k.value) for k in n.keywords):
+        if ok and all(_benign_expr(a, None, pure) for a in n.args) and all(_benign_expr(k.value, None, pure) for k in n.keywords):
             return True
         if impure is not None:
             impure.append(n)        # kept whole (and therefore pinned) by the caller
@@ -85,11 +85,11 @@ def _benign_expr(n, impure=None):
     return False
 
 
-def _benign_comp(g, impure):
+def _benign_comp(g, impure, pure):
     def names_only(t):
         return isinstance(t, ast.Name) or (isinstance(t, (ast.Tuple, ast.List)) and all(names_only(e) for e in t.elts))
-    return (not g.is_async and names_only(g.target) and _benign_expr(g.iter, impure)
-            and all(_benign_expr(c, impure) for c in g.ifs))
+    return (not g.is_async and names_only(g.target) and _benign_expr(g.iter, impure, pure)
+            and all(_benign_expr(c, impure, pure) for c in g.ifs))
 
 
 def _is_message(n):
@@ -106,13 +106,13 @@ def _is_message(n):
     return False
 
 
-def _message_placeholder(n):
+def _message_placeholder(n, pure=_PURE_BUILTINS):
     """The normal form of a message expression, or None if `n` is not plainly a message / contains something whose
     evaluation could matter.  Calls outside the white list that occur among the operands stay (in source order)."""
     if not _is_message(n):
         return None
     impure = []
-    if not _benign_expr(n, impure):
+    if not _benign_expr(n, impure, pure):
         return None
     if impure:
         return ast.Tuple(elts=[ast.Constant(MESSAGE)] + impure, ctx=ast.Load())
@@ -168,9 +168,10 @@ class _Bindings(ast.NodeVisitor):
 
 
 def _trusted_names(tree):
-    """(names that are the logging module, names that are the module logger, names that are the warnings module)."""
+    """(names that are the logging module, names that are the module logger, names that are the warnings module,
+    white-listed builtins that the file does not rebind anywhere)."""
     if not isinstance(tree, ast.Module):
-        return set(), set(), set()
+        return set(), set(), set(), frozenset()
     b = _Bindings()
     b.visit(tree)
     top = {}
@@ -187,7 +188,7 @@ def _trusted_names(tree):
     logging_names = set(k for k, v in once.items() if v[1] == 'logging')
     loggers = set(k for k, v in once.items() if v[1].startswith('logger:') and v[1][7:] in logging_names)
     warns = set(k for k, v in once.items() if v[1] == 'warnings')
-    return logging_names, loggers, warns
+    return logging_names, loggers, warns, frozenset(x for x in _PURE_BUILTINS if x not in b.bound)
 
 
 class _Benign(ast.NodeTransformer):
@@ -197,8 +198,8 @@ class _Benign(ast.NodeTransformer):
     `raise Exc(<message>)`, `warnings.warn(<message>, ...)` and `assert c, <message>` is replaced by a placeholder / dropped.
     Exception classes, raise points, guards, causes (`from e`), warning categories and every other statement stay."""
 
-    def __init__(self, logging_names, loggers, warns):
-        self.logging_names, self.loggers, self.warns = logging_names, loggers, warns
+    def __init__(self, logging_names, loggers, warns, pure):
+        self.logging_names, self.loggers, self.warns, self.pure = logging_names, loggers, warns, pure
 
     # ---- statements lists
     def _log_call(self, st):
@@ -250,7 +251,8 @@ class _Benign(ast.NodeTransformer):
         c = self._log_call(node)
         if c is not None:
             if (not any(isinstance(a, ast.Starred) for a in c.args) and all(k.arg is not None for k in c.keywords)
-                    and all(_benign_expr(a) for a in c.args) and all(_benign_expr(k.value) for k in c.keywords)):
+                    and all(_benign_expr(a, None, self.pure) for a in c.args)
+                    and all(_benign_expr(k.value, None, self.pure) for k in c.keywords)):
                 return None
             i = 1 if c.func.attr == 'log' else 0       # not droppable: only the wording is ignored
             if len(c.args) > i and isinstance(c.args[i], ast.Constant) and isinstance(c.args[i].value, str):
@@ -259,14 +261,14 @@ class _Benign(ast.NodeTransformer):
         v = node.value
         if (isinstance(v, ast.Call) and isinstance(v.func, ast.Attribute) and v.func.attr == 'warn'
                 and isinstance(v.func.value, ast.Name) and v.func.value.id in self.warns and v.args):
-            ph = _message_placeholder(v.args[0])
+            ph = _message_placeholder(v.args[0], self.pure)
             if ph is not None:
                 v.args[0] = ph
         return node
 
     def visit_If(self, node):
         self.generic_visit(node)
-        if all(isinstance(s, ast.Pass) for s in node.body) and not node.orelse and _benign_expr(node.test):
+        if all(isinstance(s, ast.Pass) for s in node.body) and not node.orelse and _benign_expr(node.test, None, self.pure):
             return None
         return node
 
@@ -283,14 +285,14 @@ class _Benign(ast.NodeTransformer):
         self.generic_visit(node)
         e = node.exc
         if isinstance(e, ast.Call) and _dotted(e.func) and len(e.args) == 1 and not e.keywords:
-            ph = _message_placeholder(e.args[0])
+            ph = _message_placeholder(e.args[0], self.pure)
             if ph is not None:
                 e.args = [ph]
         return node
 
     def visit_Assert(self, node):
         self.generic_visit(node)
-        if node.msg is not None and _benign_expr(node.msg):
+        if node.msg is not None and _benign_expr(node.msg, None, self.pure):
             node.msg = None
         return node
 
@@ -335,7 +337,7 @@ def normalise_tree(tree, trusted=False):
     if not NORMALISE:
         return tree
     if trusted:
-        names = ({'logging'}, {'logger'}, {'warnings'})
+        names = ({'logging'}, {'logger'}, {'warnings'}, _PURE_BUILTINS)
     else:
         names = _trusted_names(tree)
     tree = _Benign(*names).visit(tree)
